@@ -31,6 +31,11 @@ const (
 type Verdict struct {
 	Class  string
 	Detail string
+	// BadRegs are all mismatching registers, BadLines the 64-byte lines that
+	// contain a mismatching memory byte (at most 64 are listed; BadMany if more).
+	BadRegs  []isa.Reg
+	BadLines []int32
+	BadMany  bool
 }
 
 func (v Verdict) OK() bool { return v.Class == OK }
@@ -43,35 +48,55 @@ func Parse(p *isa.Program) (risc.Application, error) {
 // Compare judges out against ref (ref must be well-formed).
 func Compare(ref *isa.Result, out *mach.Outcome) Verdict {
 	if out.Panic != "" {
-		return Verdict{PanicPrefix + out.PanicLoc, out.Panic}
+		return Verdict{Class: PanicPrefix + out.PanicLoc, Detail: out.Panic}
 	}
 	if out.Budget {
-		return Verdict{Budget, fmt.Sprintf("no return within %d ticks", out.Ticks-1)}
+		return Verdict{Class: Budget, Detail: fmt.Sprintf("no return within %d ticks", out.Ticks-1)}
 	}
 	if ref.End.DefinedError() {
 		if out.Err == "" {
-			return Verdict{MissingError, "reference ends in " + ref.End.String() + ", Run returned nil error"}
+			return Verdict{Class: MissingError, Detail: "reference ends in " + ref.End.String() + ", Run returned nil error"}
 		}
-		return Verdict{OK, ""}
+		return Verdict{Class: OK}
 	}
 	if out.Err != "" {
-		return Verdict{UnexpectedError, out.Err}
+		return Verdict{Class: UnexpectedError, Detail: out.Err}
 	}
+	var v Verdict
 	for r := isa.Reg(0); r < isa.NumRegs; r++ {
 		if out.Regs[r] != ref.Final.Regs[r] {
-			return Verdict{RegMismatch, fmt.Sprintf("%s: machine %d, reference %d", r, out.Regs[r], ref.Final.Regs[r])}
+			if v.Class == "" {
+				v.Class = RegMismatch
+				v.Detail = fmt.Sprintf("%s: machine %d, reference %d", r, out.Regs[r], ref.Final.Regs[r])
+			}
+			v.BadRegs = append(v.BadRegs, r)
 		}
 	}
-	if out.ExtraRegs {
-		return Verdict{RegMismatch, "register map holds a key outside the 32 registers"}
+	if out.ExtraRegs && v.Class == "" {
+		return Verdict{Class: RegMismatch, Detail: "register map holds a key outside the 32 registers", BadMany: true}
 	}
 	if len(out.Mem) != len(ref.Final.Mem) {
-		return Verdict{MemMismatch, fmt.Sprintf("memory length %d vs %d", len(out.Mem), len(ref.Final.Mem))}
+		return Verdict{Class: MemMismatch, Detail: fmt.Sprintf("memory length %d vs %d", len(out.Mem), len(ref.Final.Mem)), BadMany: true}
 	}
+	last := int32(-1)
 	for i := range out.Mem {
 		if out.Mem[i] != ref.Final.Mem[i] {
-			return Verdict{MemMismatch, fmt.Sprintf("mem[%d]: machine %d, reference %d", i, out.Mem[i], ref.Final.Mem[i])}
+			if v.Class == "" {
+				v.Class = MemMismatch
+				v.Detail = fmt.Sprintf("mem[%d]: machine %d, reference %d", i, out.Mem[i], ref.Final.Mem[i])
+			}
+			if l := int32(i) >> 6; l != last {
+				last = l
+				if len(v.BadLines) < 64 {
+					v.BadLines = append(v.BadLines, l)
+				} else {
+					v.BadMany = true
+				}
+			}
 		}
 	}
-	return Verdict{OK, ""}
+	if v.Class != "" {
+		return v
+	}
+	return Verdict{Class: OK}
 }
